@@ -64,6 +64,25 @@ def float_units(tier):
     return units
 
 
+def wide_units(tier):
+    """index fields at the one-byte boundary of the compact byte encoding: a domain with n state variables (lexical slots
+    around 256, reached from outside through inlined functions), a function with n locals, n top-level constants"""
+    units = []
+    for n in ((250, 300) if tier == 'quick' else (250, 255, 256, 257, 300, 600)):
+        dom = 'VW%d: with { dep: MachineInteger -> (); bal: () -> MachineInteger; hi: () -> MachineInteger; rot: () -> MachineInteger; aud: () -> MachineInteger } == add {\n\timport from MachineInteger;\n' % n
+        dom += ''.join('\tv%d: MachineInteger := %d;\n' % (i, i) for i in range(n))
+        dom += '\tdep(k: MachineInteger): () == { free v0; v0 := v0 + k }\n\tbal(): MachineInteger == v0 + v1;\n'
+        dom += '\thi(): MachineInteger == { free v%d; v%d := v%d + 1; v%d + v%d }\n' % (n - 1, n - 1, n - 1, n - 1, n - 2)
+        # a reader of every variable keeps all of them (and their slot numbers) alive
+        dom += '\taud(): MachineInteger == { s: MachineInteger := 0;\n' + ''.join('\t\ts := s + %d * v%d;\n' % (i % 7 + 1, i) for i in range(n)) + '\t\ts }\n'
+        dom += '\trot(): MachineInteger == { free v0; free v%d; t: MachineInteger := v0; v0 := v%d; v%d := t; v0 }\n}\n' % (n - 1, n - 1, n - 1)
+        use = 'cw%d(): () == {\n\timport from MachineInteger, VW%d;\n\tpIMI("K4:", bal()); pIMI("K4:", aud()); dep 1000; pIMI("K4:", bal()); pIMI("K4:", hi()); pIMI("K4:", rot()); pIMI("K4:", bal()); pIMI("K4:", hi()); pIMI("K4:", aud());\n}\ncw%d();\n' % (n, n, n)
+        loc = 'cl%d(z: MachineInteger): MachineInteger == {\n\timport from MachineInteger;\n' % n + ''.join('\ta%d: MachineInteger := z + %d;\n' % (i, i) for i in range(n)) + \
+              '\tf(): MachineInteger == a0 + a%d + a%d;\n\ta%d := a%d + 1;\n\tf() + %s\n}\npIMI("K5:", cl%d(1));\n' % (n - 1, n // 2, n - 1, n - 1, ' + '.join('a%d' % i for i in range(0, n, 37)), n)
+        units.append(('wide%d' % n, progspace.PRELUDE + 'import from MachineInteger;\n' + dom + use + loc))
+    return units
+
+
 DOMS = {
     'D1': 'VD1: with { mk1: MachineInteger -> %; v1: % -> MachineInteger } == add { Rep == MachineInteger; import from Rep; mk1(n: MachineInteger): % == per(n + 1); v1(x: %): MachineInteger == rep x * 2 }\n',
     'D2': 'VD2: with { f2: MachineInteger -> MachineInteger; big2: () -> MachineInteger } == add { import from MachineInteger; f2(n: MachineInteger): MachineInteger == n * n + 4294967296; big2(): MachineInteger == 4611686018427387904 }\n',
@@ -118,6 +137,7 @@ def main(tier):
         by.setdefault(f, []).append((f, c))
     units = [('consts', CONSTS % ('long string ' * 300, int('9' * 300), int('7' * 60)))]
     units += float_units(tier)
+    units += wide_units(tier)
     per = 1 if tier == 'quick' else 4
     for f in sorted(by):
         lst = by[f]
